@@ -714,8 +714,9 @@ class Type3Tag(nfc.tag.Tag):
                 raise Type3TagCommandError(nfc.tag.TIMEOUT_ERROR)
             if type(error) is nfc.clf.TransmissionError:
                 raise Type3TagCommandError(nfc.tag.RECEIVE_ERROR)
-            if type(error) is nfc.clf.ProtocolError:  # pragma: no branch
+            if type(error) is nfc.clf.ProtocolError:
                 raise Type3TagCommandError(nfc.tag.PROTOCOL_ERROR)
+            raise Type3TagCommandError(nfc.tag.RECEIVE_ERROR)
 
         min_length = 2 if not send_idm else 12 if check_status else 10
         if len(rsp) < min_length or rsp[0] != len(rsp):
